@@ -3,8 +3,10 @@
 
    run f' k p   the object p after k calls of next() (whatever each returned: a value, StopIteration, an exception);
    reset f p    reset(), incl. Pattern.reset's walk over the attributes;  rpat p  the proved fragment: any nesting
-   of the 15 operators, &, abs, int, skip-if, PStutter, PCounter, PPad, PPadToMultiple over PSequence (scalar items)
-   and constants/scalars.  binop (operator semantics) is arbitrary; f, f' are recursion fuels. *)
+   of the 15 operators, &, abs, int, skip-if, references, PStutter, PCounter, PPad, PPadToMultiple, PSeries, PRange, PGeom,
+   PImpulse, PLoop, PPingPong, PReverse, PSubsequence, PCollapse, PNoRepeats, PChanged, PDiff, PWrap (parameters scalars
+   or again patterns of the fragment) over PSequence (scalar items) and constants/scalars; PReset(p, trigger) for p a
+   PSequence / PSeries / PRange / PGeom / PImpulse with scalar parameters (`flat`) and any trigger of the fragment.  binop (operator semantics) is arbitrary; f, f' are recursion fuels. *)
 From Isobar Require Import Base.Prelude Pat.Val Pat.Syntax Pat.Step Pat.StepProofs Pat.IterProofs Pat.ResetProofs.
 From Coq Require Import String QArith.
 Open Scope Z_scope.
@@ -18,11 +20,15 @@ Section AnyOperators.
     rpat p -> reset binop LMAX f (snd (step binop LMAX f' p)) = reset binop LMAX f p.
   Proof. exact (reset_step binop LMAX). Qed.
 
-  (* the fragment is closed under next(): needed to iterate.  Open: full statement
-       forall f' p, rpat p -> rpat (snd (step f' p))
-     (shape preservation, obvious from the clauses; here only for the empty history) *)
-  Theorem C04_fragment_closed_partial : forall f' p, rpat p -> rpat (run binop LMAX f' 0 p).
-  Proof. intros f' p H. exact H. Qed.
+  (* the fragment is closed under next() (shape preservation, class by class): any history stays in it *)
+  Theorem C04_fragment_closed : forall f' p, rpat p -> rpat (snd (step binop LMAX f' p)).
+  Proof. exact (rpat_step_closed binop LMAX). Qed.
+
+  (* hence, from membership of the NEW object alone: after ANY number k of next() calls - none, some, to exhaustion
+     and beyond - reset() gives the state that reset() gives on the untouched object *)
+  Theorem C04_reset_any_history : forall f f' k p0,
+    rpat p0 -> reset binop LMAX f (run binop LMAX f' k p0) = reset binop LMAX f p0.
+  Proof. intros f f' k p0. exact (reset_run binop LMAX f f' k p0). Qed.
 
   (* after ANY number k of next() calls - none, some, to exhaustion and beyond - reset() gives the state that
      reset() gives on the untouched object; for a new object p0 (reset p0 = p0: __init__ leaves the fields
@@ -53,16 +59,20 @@ Section AnyOperators.
     all_ binop LMAX f m p = (Yield vs, p'').
   Proof. exact (all_is_nextn_then_reset binop LMAX). Qed.
 
-  (* remaining classes (PSeries PRange PGeom PImpulse PLoop PPingPong PReverse PSubsequence PReset PNoRepeats
-     PCollapse PChanged PDiff PRound PWrap PIndexOf PArrayIndex PDict PDictKey PConcatenate PRef, pattern-valued
-     parameters): full statement  forall f f' p, fragment p -> reset f (snd (step f' p)) = reset f p ;
-     proved here: the leaf case the others build on; the rest is validated by the correspondence and the oracle *)
+  (* remaining classes (PReset over a nested pattern - needs reset (reset p) = reset p for the whole fragment, jointly with
+     closure -, PRound PIndexOf PArrayIndex PDict PDictKey PConcatenate, PSequence with pattern items,
+     list- / tuple- / dict-valued parameters): full statement
+       forall f f' p, fragment p -> reset f (snd (step f' p)) = reset f p ;
+     proved here: the leaf case; C04_reset_erases_step has every other modelled class; the rest is validated by the
+     correspondence and the oracle *)
   Theorem C04_reset_erases_step_leaf_partial : forall f f' p,
     leaf_reset p = true -> reset binop LMAX f (snd (step binop LMAX f' p)) = reset binop LMAX f p.
   Proof. exact (leaf_reset_step binop LMAX). Qed.
 End AnyOperators.
 Print Assumptions C04_reset_init.
 Print Assumptions C04_reset_erases_step.
+Print Assumptions C04_fragment_closed.
+Print Assumptions C04_reset_any_history.
 
 (* non-vacuity: a nested, repaired-class expression is in the fragment, is its own reset, and rewinds *)
 Definition seq_ (l : list Z) (rep : Z) : pat := PSequence (AL (map (fun z => AV (VInt z)) l)) (AV (VInt rep)) 0 0.
@@ -80,4 +90,34 @@ Proof.
   - apply RP_binop; apply RA_pat; [apply RP_stutter; [apply RA_pat; apply RP_leaf; reflexivity|apply RA_val]
                                   |apply RP_padm; apply RA_pat; apply RP_leaf; reflexivity].
   - split; [vm_compute; reflexivity|]. split; [vm_compute; discriminate|]. split; vm_compute; reflexivity.
+Qed.
+
+(* non-vacuity for the leaf and buffering classes: PLoop over PCollapse over PSubsequence over PSeries *)
+Definition ex_p1 : pat :=
+  PLoop (AP (PCollapse (AP (PSubsequence (AP (PSeries (VInt 0) (VInt 0) (AV (VInt 1)) (AV (VInt 5)) 0))
+                                         (AV (VInt 1)) (AV (VInt 3)) 0 [])))) (VInt 2) 0 0 false [].
+
+Example C04_buffering_nonvacuous :
+  rpat ex_p1 /\ reset Val.binop 100 30 ex_p1 = Yield ex_p1 /\
+  run Val.binop 100 30 4 ex_p1 <> ex_p1 /\
+  reset Val.binop 100 30 (run Val.binop 100 30 4 ex_p1) = Yield ex_p1 /\
+  fst (outputs Val.binop 100 30 7 ex_p1) =
+    [Yield (VInt 1); Yield (VInt 2); Yield (VInt 3); Yield (VInt 1); Yield (VInt 2); Yield (VInt 3); Stop].
+Proof.
+  split.
+  - apply RP_loop, RA_pat, RP_collapse, RA_pat, RP_subsequence; [apply RA_pat, RP_series; apply RA_val|apply RA_val|apply RA_val].
+  - split; [vm_compute; reflexivity|]. split; [vm_compute; discriminate|]. split; vm_compute; reflexivity.
+Qed.
+
+(* non-vacuity for PReset: the trigger restarts the series in the middle, reset() rewinds both *)
+Definition ex_p2 : pat :=
+  PReset (AP (PSeries (VInt 0) (VInt 0) (AV (VInt 1)) (AV (VInt 9)) 0)) (AP (seq_ [0; 0; 0; 1; 0] 1)).
+
+Example C04_preset_nonvacuous :
+  rpat ex_p2 /\ reset Val.binop 100 30 ex_p2 = Yield ex_p2 /\
+  reset Val.binop 100 30 (run Val.binop 100 30 4 ex_p2) = Yield ex_p2 /\
+  fst (outputs Val.binop 100 30 6 ex_p2) = [Yield (VInt 0); Yield (VInt 1); Yield (VInt 2); Yield (VInt 0); Yield (VInt 1); Stop].
+Proof.
+  split; [apply RP_reset; [reflexivity|apply RA_pat, RP_leaf; reflexivity]|].
+  split; [vm_compute; reflexivity|]. split; vm_compute; reflexivity.
 Qed.
